@@ -50,7 +50,7 @@ def gen_case(rng, i, tier):
         sc = 2.0 ** -rng.choice([10, 14, 17])
         case["map"] = gen.transform_map(case["map"], sc)
         case["trace"] = gen.transform_trace(case["trace"], sc)
-        for key in ("obs_noise", "obs_noise_ne", "dist_noise", "max_dist", "max_dist_init"):
+        for key in ("obs_noise", "obs_noise_ne", "dist_noise", "dist_noise_ne", "max_dist", "max_dist_init"):
             if case["cfg"].get(key) is not None:
                 case["cfg"][key] *= sc
         case["tiny"] = True
@@ -124,6 +124,17 @@ def check_case(ctx, case):
         ctx.nontriv(case)
     ctx.sample(case)
 
+
+# no result depends on the log level: a tenth of the cases runs with the package logger at DEBUG (replayable: the flag is
+# part of the case / of the recorded witness)
+_dbg_gen, _dbg_chk = env.debug_dimension(0.1)
+gen_case = _dbg_gen(gen_case)
+check_case = _dbg_chk(check_case)
+
+# no clause depends on the map backend: a tenth of the eligible cases (integer labels, no linked edges) runs on SqliteMap
+_bk_gen, _bk_chk = build.backend_dimension(0.12)
+gen_case = _bk_gen(gen_case)
+check_case = _bk_chk(check_case)
 
 TECHNIQUE = "runtime monitoring: independent re-scoring of the reported best path (documented formulas) after every call of generated operation histories"
 LEVEL_TEXT = ("{Q} (quick) / {T} (thorough) operation histories; every reported best path (~2 per history, ~6 states each, non-emitting states on the "
